@@ -22,7 +22,13 @@ CHECKS = {
          "Every ordered pair of a 109/209-value grid (all numeric cross-type pairs at the int/uint/2^53 boundaries, NaN, -0.0, strings, bytes, bools, null, types, timestamps, durations, nested lists/maps) is executed under == != < <= > >= in bound and literal form and judged against the algebraic laws and one reference order; transitivity is scanned over all n^3 triples of the observed matrix; sort is run on all lists of length <=4/<=6 with duplicates over 8 alphabets, min/max on all tuples of 1..4/5 arguments. Complete for these bounds only.",
          "Trusted: the reference order (i128 for int/uint, nearest double for int-vs-double, bytewise for strings). == between unrelated types only has to be symmetric/complementary; bool-vs-number ordering unspecified.",
          "DESIGN.md section 3, C04"),
+ "C05": ("exploration",
+         "bounded exhaustive enumeration of logical/conditional expression trees over an atom set with call-recording functions, compared (outcome and exact call log) with a reference lazy evaluator",
+         "Every fully parenthesised tree over || && ?: ! with <=3 internal nodes and <=4 leaves (thorough: <=4 nodes/<=4 leaves and <=3 nodes/<=5 leaves) with every leaf drawn from 12/14 atoms (literal and bound true/false, truthy/falsy non-bools, a foldable failure, a run-time failure, an unbound name, functions that record their call and return true/false/an error) is executed; the result and the exact sequence of recorded calls must equal the reference lazy evaluator. Every match with 0..2/3 cases over 7 patterns x 5 arms x 11 scrutinees (literal and bound), and a truthiness table of 35 values of every type x 16 contexts x literal/bound. Complete for these bounds only.",
+         "Trusted: the reference evaluator (c05.rs) as the reading of the statement; failure kinds are not compared; matches whose pattern comparison involves unrelated types are totality-only; bool(s) on the documented literal spellings is a conversion.",
+         "DESIGN.md section 3, C05"),
  "C13": ("exploration",
+
          "bounded exhaustive enumeration of literal spellings whose denoted value the generator knows by construction",
          "All boundary ints/uints (every +-2^k, +-2^k+-1) in decimal and 4 hex spellings with u/U, the first out-of-range magnitudes, doubles over all finite exponents x 10 mantissa patterns x up to 7 spellings (thorough: 245k), all strings of length <=2/<=3 over 11 hostile characters x 7 escape forms x quotes x prefixes (thorough: 971k), all 256 bytes in every spelling, and a rejection set (all proper prefixes of every escape form, surrogates, >10FFFF). Each literal is compiled and evaluated; the result must equal the spelled value bit for bit or be a syntax error.",
          "Trusted: std float formatting round-trips; unknown escapes / leading zeros / exponent overflow are not generated (unspecified).",
